@@ -541,6 +541,73 @@ int main(int argc, char **argv) {
       };
       R.add(sp);
     }
+    // (a5) ONE output geometry object (a Mesh for mesh streams, a PointCloud for point-cloud streams) handed to
+    // Decoder::DecodeBufferToGeometry for every stream of the sequence: what it holds after a successful decode must equal what a
+    // fresh object holds (ordered digest) and must be structurally valid.
+    auto decode_into = [](Mesh &tm, PointCloud &tp, const Bytes &s2, std::string *invalid) {
+      DecOut o;
+      DecoderBuffer b;
+      b.Init(reinterpret_cast<const char *>(s2.data()), s2.size());
+      Decoder d;
+      if (s2.size() > 7 && s2[7] == TRIANGULAR_MESH) {
+        o.ok = d.DecodeBufferToGeometry(&b, &tm).ok();
+        if (o.ok) {
+          *invalid = validate_structure(tm, &tm);
+          if (invalid->empty()) o.digest = ordered_digest(tm, &tm);
+        }
+      } else {
+        o.ok = d.DecodeBufferToGeometry(&b, &tp).ok();
+        if (o.ok) {
+          *invalid = validate_structure(tp, nullptr);
+          if (invalid->empty()) o.digest = ordered_digest(tp, nullptr);
+        }
+      }
+      o.remaining = b.remaining_size();
+      return o;
+    };
+    for (int depth : {2, 3}) {
+      mc::Space sp;
+      sp.name = std::string(asan ? "asan_" : "") + "output_object_reuse_depth" + std::to_string(depth);
+      sp.size = depth == 2 ? n * n : n * n * n;
+      sp.quick = depth == 2;
+      sp.thorough = true;
+      sp.run = [=](uint64_t idx, mc::Ctx &ctx) {
+        Mesh shared_mesh;
+        PointCloud shared_pc;
+        std::string hist;
+        uint64_t k = idx;
+        for (int step = 0; step < depth; ++step) {
+          const size_t c = k % n;
+          k /= n;
+          hist += (step ? " ; " : "") + (*names)[c];
+          std::string inv, inv2;
+          DecOut got = decode_into(shared_mesh, shared_pc, (*carriers)[c], &inv);
+          Mesh fm;
+          PointCloud fp;
+          DecOut ref = decode_into(fm, fp, (*carriers)[c], &inv2);
+          ctx.count("decodes_into_reused_output_object");
+          if (!inv.empty()) {
+            ctx.fail("output-object-reuse:decoded-geometry-structurally-invalid:" + inv, "one output object: " + hist);
+            return;
+          }
+          if (got.ok != ref.ok || got.digest != ref.digest || got.remaining != ref.remaining) {
+            ctx.fail("output-object-reuse:result-differs-from-fresh-object", "one output object: " + hist);
+            return;
+          }
+          if (got.ok) ctx.state(got.digest);
+        }
+        ctx.nontrivial_unique();
+      };
+      sp.describe = [=](uint64_t idx) {
+        std::string hist;
+        for (int step = 0; step < depth; ++step) {
+          hist += (step ? " ; " : "") + (*names)[idx % n];
+          idx /= n;
+        }
+        return "one output Mesh / PointCloud object reused by DecodeBufferToGeometry: " + hist;
+      };
+      R.add(sp);
+    }
     fprintf(stderr, "[C06] decoder buffer reuse: %zu carriers\n", (size_t)n);
   }
   // (b)
